@@ -66,6 +66,10 @@ func driveRoundtrip(c *DriverCtx, mode Mode) error {
 				{Op: "encode", B: "b", O: "m"},
 				{Op: "decode", B: "b", O: "r", T: t, Fresh: true},
 			}
+			if mode == Canon && i%2 == 0 {
+				// the receive buffer goes back to the pool and is refilled; the application then looks at the message
+				ops = append(ops, Op{Op: "scribble", B: "b", K: 32, Tag: "pool-reuse"}, Op{Op: "observe", O: "r", Tag: "kept"})
+			}
 			if err := c.Run(ops); err != nil {
 				return err
 			}
